@@ -10,7 +10,7 @@
     [read_tables] files under the selected name. *)
 From Coq Require Import Ascii String List Bool Arith ZArith NArith.
 From PTBase Require Import Exn PyStr.
-From P Require Import ListingHistory HistoryFuel HistorySpec HistoryProofs.
+From P Require Import ListingHistory HistoryFuel HistorySpec HistoryProofs HistoryRows.
 Import ListNotations.
 Open Scope nat_scope.
 
@@ -59,6 +59,42 @@ Theorem history_reverse_negates : forall cell F short c, c_rev c = false ->
   stepping_values cell F short (conv_flip c) = map Z.opp (stepping_values cell F short c).
 Proof. exact stepping_values_flip. Qed.
 Print Assumptions history_reverse_negates.
+
+(** ** which LINE of a table is read (the table layout as input: HistoryRows.v) *)
+(** the items of a table, whatever their order and multiplicity in the selection, are sorted by line
+    index (a permutation) and each is then read from exactly the line its line index names, by the
+    readline() counting of history() *)
+Theorem history_reads_selected_lines : forall items : list (nat * nat),
+  Permutation.Permutation items (sort_items items) /\
+  read_items 0 0 (map fst (sort_items items)) = map fst (sort_items items).
+Proof. exact (fun items => conj (sort_items_perm items) (history_reads_line_index items)). Qed.
+Print Assumptions history_reads_selected_lines.
+
+(** without the sort an earlier row selected after a later one would be read from the held line *)
+Theorem history_unsorted_items_refuted : read_items 0 0 [5; 2] = [5; 5].
+Proof. exact unsorted_reads_wrong_line. Qed.
+Print Assumptions history_unsorted_items_refuted.
+
+(** for EVERY table layout (any data lines, any repetitions, any page-break gaps) in which printed copies
+    of a row agree on index and key and different rows differ in both: the line row_line[r] that
+    history() reads for row r is the line whose values read_table_TOUGH2 leaves in row r (the LAST
+    printed copy), and that row is named by that line's key *)
+Theorem history_row_line_is_stepped_row : forall ds, wf_keys ds -> forall r i, nth_error (indices ds) r = Some i ->
+  exists d, stepped_line ds r = Some d /\ row_of ds i = Some d /\
+            nth_error (row_line ds) r = Some (d_off d) /\ nth_error (rows ds) r = Some (d_key d).
+Proof. exact row_eq_stepping. Qed.
+Print Assumptions history_row_line_is_stepped_row.
+
+(** read_table_TOUGH2, stepping by skiplines, visits exactly the data lines *)
+Theorem stepping_visits_data_lines : forall ds d, offs_incr (d :: ds) ->
+  visited (d_off d) (skiplines (d :: ds)) = map d_off (d :: ds).
+Proof. exact visited_data_lines. Qed.
+Print Assumptions stepping_visits_data_lines.
+
+Theorem example_repeated_row_layout : wf_keys ds_ex /\ offs_incr ds_ex /\ indices ds_ex = [1; 2; 3]%Z /\ row_line ds_ex = [0; 5; 4] /\
+  skiplines ds_ex = [0; 2; 0] /\ option_map d_off (stepped_line ds_ex 1) = Some 5.
+Proof. exact ds_ex_facts. Qed.
+Print Assumptions example_repeated_row_layout.
 
 (** ** afterwards the reader shows the same current index, time, step and tables *)
 Theorem history_restores_cursor : forall fuel F ms sel short s r s',
